@@ -77,3 +77,34 @@ def prefix_len(n: int, line: str) -> bool:
     """
     PATHS[0] += 1
     return run(line) == ref_prefix(line) and not TWIN[0]
+
+
+ENUM_ALPHA = ['a', '1', '_', '\u00e9', '\u00df', '\u03a9', ' ', '.', '(', '#']
+
+
+def enum_line(n, cs):
+    return ''.join(ENUM_ALPHA[c] for c in cs[:n])
+
+
+def _c(v, lo, hi):
+    for j in range(lo, hi + 1):
+        if v == j:
+            return j
+    return lo
+
+
+def prefix_enum(n: int, c0: int, c1: int, c2: int, c3: int) -> bool:
+    """
+    pre: 0 <= n <= 4
+    pre: 0 <= c0 <= 9 and 0 <= c1 <= 9 and 0 <= c2 <= 9 and 0 <= c3 <= 9
+    post: _
+    """
+    PATHS[0] += 1
+    from crosshair.tracers import NoTracing
+    n = _c(n, 0, 4)
+    cs = [_c(c0, 0, 9), _c(c1, 0, 9) if n > 1 else 0, _c(c2, 0, 9) if n > 2 else 0, _c(c3, 0, 9) if n > 3 else 0]
+    with NoTracing():
+        if TWIN[0]:
+            return False
+        line = enum_line(n, cs)
+        return run(line) == ref_prefix(line)
